@@ -3,9 +3,21 @@
 import json, os, subprocess
 
 CLAIMED = {
+ "C08": dict(design="5.1/C08", technique="Coq proof over the decoder model + kernel-checked table facts; key table regenerated from key.go and compared with the frozen documented table (tie); differential harness with Spec evaluated on real output",
+             text="Tie_KeyTable: the table extracted from key.go on every run equals the frozen documented table; table facts (distinct, non-empty keys = documented keys) by computation; the decode(encode evs) = expect evs statement is evaluated in Coq on the real decoder's output for every table entry (+alt) x successor classes, every control byte in text, boundary scalars and random well-formed streams; the model equals the implementation on all of them and on malformed streams.",
+             note="Trusted: Coq kernel + vm_compute; goextract; harness; frozen RefTable.v as the documentation-side oracle. Stream theorem C08_stream: see evidence theorems list for what is proved in this revision. No axioms."),
+ "C09": dict(design="5.1/C09", technique="Coq proof (induction over the reader's loops on all byte strings and read scripts) + differential harness on hostile inputs + accounting oracle over the real detectOneMsg",
+             text="C09_detect_total: for every non-empty buffer detectOneMsg's model returns a width in 1..len or asks for more for a stated reason, never panics; C09_reader_accounts: for every script of reads and cancellation point the emitted runs are non-empty, adjacent, ordered and runs++leftover = input, the fuel (= buffer length) always suffices; C09_short_read_flushes, C09_held_only_if_incomplete, C09_cancel_prompt, C09_error_prompt. Unbounded over bytes and chunkings.",
+             note="Trusted: Coq kernel; goextract (constants, regexes, markers); harness. Go's regexp/utf8/strconv mirrored by model scanners validated by K2. cancelreader's own latency is exercised, not proved. No axioms."),
+ "C10": dict(design="5.1/C10", technique="Coq proof over the decoder/reader model + differential harness with pastes cut at arbitrary positions; Spec evaluated on real output",
+             text="Paste payloads with escape sequences, mouse reports, control bytes, invalid UTF-8 and partial end markers, lengths up to 3 buffers, cut anywhere after the start marker (incl. inside the end marker, 1-byte reads, exact-256 reads), with neighbours and back-to-back pastes: real output = one paste message with the valid scalars (Spec in Coq) and = model.",
+             note="Trusted: as C09. See evidence theorems list for the paste lemmas proved in this revision. No axioms."),
  "C11": dict(design="5.1/C11", technique="Coq proof (mod-256 lift + kernel-checked 256-code sweep, itoa/atoi round trip, SGR scanner) + differential harness on detectOneMsg/readAnsiInputs",
              text="C11_sgr / C11_x10: for every code, every coordinate and any following bytes the model of detectOneMsg returns the xterm-specified mouse message and consumes exactly the report's bytes; unbounded in code and coordinates. Constants/bit masks/regex are regenerated from mouse.go, key.go on every run (tie); the model is compared with the real decoder on all 256x2 SGR and 224 X10 codes, huge numbers, embedded reports and malformed near-misses, and the Spec is evaluated on the real output.",
              note="Trusted: Coq kernel + vm_compute; goextract; harness; Go regexp/strconv mirrored by match_sgr/atoi_sat (validated by K2). Spec fixes the one case xterm never emits (SGR low bits 3) as release of no button. Deprecated MouseEvent.Type is compared with the model only, not specified. No axioms."),
+ "C15": dict(design="5.1/C15", technique="Coq proof over the reader model + boundary-sweep differential harness; Spec evaluated on real output",
+             text="Every event kind at every offset around the 256-byte boundary and random long streams, read in 256-byte reads: the real reader's messages equal the one-shot meaning of the events (Spec in Coq) and the model's. F5 (events split at the boundary) was found by this check on the pinned tree and repaired.",
+             note="Trusted: as C09. See evidence theorems list for the chunk-invariance theorems proved in this revision. No axioms."),
  "C20": dict(design="5.3/C20", technique="Coq proof over the translated delay expression (goextract -> gen/TimerExpr.v) + real-timer correspondence",
              text="Theorems over the delay expression translated from commands.go on every run: 0 < w <= d, (n+w) mod d = 0, least such multiple; not-early and message = fn(firing time) under the stated Go timer contract (hypothesis, hence _partial). Real Tick/Every runs are checked against the Spec predicates and a control timer.",
              note="Trusted: Coq kernel + vm; goextract translator; Go runtime timers/clock (hypothesis runtime_timer_ok); 100us clock-reading tolerance in the real-run check. No axioms."),
